@@ -39,6 +39,8 @@ type Observer struct {
 	BeforeUnmap     func(path string)                                  // table file about to be unmapped
 	AfterUnmap      func(path string)                                  // table file unmapped
 	PageWrite       func(path string, kind string, offset, length int) // before a store into a queue page
+	PageWriteData   func(path string, offset int, data []byte)         // before the payload store of an append (may block)
+	PageWriteDone   func()                                             // after the payload store of an append
 }
 
 // NoFsync makes wrapped buffered writers skip the fsync(2) of Sync (the flush to the kernel still happens).
@@ -326,7 +328,13 @@ func (p *mappedPage) WriteBytes(data []byte, offset int) {
 	if p.obs.PageWrite != nil {
 		p.obs.PageWrite(p.FilePath(), "bytes", offset, len(data))
 	}
+	if p.obs.PageWriteData != nil {
+		p.obs.PageWriteData(p.FilePath(), offset, data)
+	}
 	_ = p.ic.Do("page.bytes "+p.FilePath(), func() error { p.MappedPage.WriteBytes(data, offset); return nil })
+	if p.obs.PageWriteDone != nil {
+		p.obs.PageWriteDone()
+	}
 }
 
 func (p *mappedPage) PutUint64(value uint64, offset int) {
